@@ -48,7 +48,8 @@ def load_known(pid):
             data = json.load(f)
         for ent in data.get("findings", []):
             if ent.get("property") == pid and ent.get("status") == "known":
-                known[ent["signature"]] = ent.get("what", "")
+                for sg in ent.get("signatures", []) + ([ent["signature"]] if "signature" in ent else []):
+                    known[sg] = ent.get("what", "")
     return known
 
 
@@ -367,9 +368,12 @@ def main(argv=None):
                         new[s].update(case=best["case"], size=best["size"], msg=best["msg"],
                                       detail=best["detail"])
         known = load_known(pid)
+        by_what = {}
         for sig, what in sorted(known.items()):
-            print("KNOWN-FINDING: property=%s %s [signature=%s; observed %d times in this run]"
-                  % (pid, what, sig, known_obs.get(sig, 0)))
+            by_what.setdefault(what, []).append(sig)
+        for what, sigs_ in sorted(by_what.items()):
+            print("KNOWN-FINDING: property=%s %s [signatures=%s; observed %d times in this run]"
+                  % (pid, what, ",".join(sigs_), sum(known_obs.get(x, 0) for x in sigs_)))
         wall = time.time() - t0
         write_evidence(pid, mod, args.tier, seed, merged, wall, len(new), dict(known_obs))
         nt = len(merged["nontrivial"])
